@@ -86,6 +86,9 @@ extern "C" const void *cv_memchr(const void *s, int c, size_t n)
 }
 #endif
 const CvCharTable CharacterSet::TCHAR(&CV_TCHAR[0]);
+#define CV_TABLE(T) const CvCharTable CharacterSet::T(&CV_##T[0]);
+CV_TABLE(WSP) CV_TABLE(ALPHA) CV_TABLE(DIGIT) CV_TABLE(HEXDIG) CV_TABLE(CTL) CV_TABLE(VCHAR) CV_TABLE(SP) CV_TABLE(HTAB)
+CV_TABLE(CR) CV_TABLE(LF) CV_TABLE(BIT) CV_TABLE(DQUOTE) CV_TABLE(OBSTEXT) CV_TABLE(QDTEXT) CV_TABLE(SPECIAL)
 
 // std::vector<HttpHeaderFieldStat> headerStatsTable(Http::HdrType::enumEnd_): index checked against that size; the per-id
 // counters are abstracted to two cells (TRUSTED): the counters of the one id the wrapper watches (cv_stat_watch) and one cell
